@@ -26,6 +26,7 @@ class Graph(object):
         self.out = collections.defaultdict(list)   # node -> [(label, dst)]
         self.nodes = set()
         self.nedges = 0
+        self.label = {}                         # node -> state text
         self.actions = collections.Counter()   # action name -> number of edges
 
 
@@ -52,6 +53,7 @@ def parse_dot(path, by_call=True):
             m = _NODE.match(line)
             if m:
                 g.nodes.add(m.group(1))
+                g.label[m.group(1)] = m.group(2)
                 if 'style = filled' in m.group(3):
                     g.init.append(m.group(1))
     return g
@@ -72,17 +74,43 @@ def parse_label(lab):
 
 def tours(g, maxlen=40, budget=None, seed=0, want=None):
     """Greedy edge cover.  Returns (list of tours, covered edges, total edges).
-    A tour is a list of raw labels.  `want(label)` may restrict which edges must
-    be covered (others are still used as connecting steps)."""
-    rnd = random.Random(seed)
-    unc = {}
-    total = 0
-    for u, es in g.out.items():
-        idx = [i for i, (lab, v) in enumerate(es) if want is None or want(lab)]
-        rnd.shuffle(idx)
-        if idx:
-            unc[u] = idx
-            total += len(idx)
+    A tour is a list of raw labels.  `want(label, destination state text)` may
+    restrict which edges must be covered (others still serve as connecting steps)."""
+    return staged_tours(g, [(want or (lambda lab, dst: True), 1.0)], maxlen, budget, seed)
+
+
+def staged_tours(g, stages, maxlen=40, budget=None, seed=0):
+    """Cover edges in priority stages: stages = [(predicate(label, dst text), share of budget)].
+    An edge belongs to the first stage whose predicate accepts it."""
+    out = []
+    cov = tot = 0
+    done = set()
+    cache = _prepare(g)
+    for k, (pred, share) in enumerate(stages):
+        rnd = random.Random(seed * 31 + k)
+        unc = {}
+        total = 0
+        for u, es in g.out.items():
+            idx = []
+            for i, (lab, v) in enumerate(es):
+                if (u, i) in done:
+                    continue
+                if pred(lab, g.label.get(v, '')):
+                    idx.append(i)
+                    done.add((u, i))
+            rnd.shuffle(idx)
+            if idx:
+                unc[u] = idx
+                total += len(idx)
+        b = None if budget is None else int(budget * share)
+        ts, c = _cover(g, cache, unc, maxlen, b, rnd)
+        out += ts
+        cov += c
+        tot += total
+    return out, cov, tot
+
+
+def _prepare(g):
     succ = {u: sorted(set(v for _, v in es)) for u, es in g.out.items()}
     first_edge = {}
     for u, es in g.out.items():
@@ -90,6 +118,11 @@ def tours(g, maxlen=40, budget=None, seed=0, want=None):
         for lab, v in es:
             d.setdefault(v, lab)
         first_edge[u] = d
+    return succ, first_edge
+
+
+def _cover(g, cache, unc, maxlen, budget, rnd):
+    succ, first_edge = cache
     result = []
     covered = 0
     steps = 0
@@ -135,11 +168,8 @@ def tours(g, maxlen=40, budget=None, seed=0, want=None):
             for a, b in path:
                 tour.append(first_edge[a][b])
             cur = goal
-        if not tour:
-            break
-        if not progressed:
-            # unreachable remainder from this start; avoid looping forever
+        if not tour or not progressed:
             break
         result.append(tour)
         steps += len(tour)
-    return result, covered, total
+    return result, covered
